@@ -31,7 +31,7 @@ class Bounds:
         self.string_lens = [1, 0, 2] if quick else [1, 0, 2, 3]
         self.endless_counts = [1, 0, 2] if quick else [1, 0, 2, 3]
         self.mask_patterns = 4
-        self.max_shapes = 24 if quick else 400
+        self.max_shapes = 24 if quick else 120
         if tier == 'quick-sizes':
             self.max_shapes = 6
 
